@@ -68,6 +68,11 @@ def check(ctx):
                 continue  # this configuration passes None for the collection: the test is not reached with it
             ik = 'symbol' if (item.ty == 'str') else ('species' if item.ty == 'Species' else None)
             ck = elem_kind(cont)
+            if item.ty == 'str' and item.strof in ('Species', 'Element', 'PeriodicSite') and ck == 'symbol':
+                ctx.ob('R1', e['where'], norm_text(e['node']) + f' [{which}]', False,
+                       f'with `{which}` the text str(species) is looked up among element symbols: for species with an oxidation state it reads '
+                       f'"Li+", "S2-", which never equals the symbol, so those atoms silently fall on the other side of the selection')
+                continue
             key = (id(e['node']), ck)
             if key in seen:
                 continue
